@@ -102,6 +102,13 @@ Proof.
 Qed.
 
 (* ------------------------------------------------------------------ kids *)
+Lemma existsb_akid_cons x dns c t r :
+  existsb (has_id x) (flat_map (akid dns) ((c, t) :: r))
+  = (N.eqb (cid c) x || existsb (is_tobj x) (chain_texts t) || existsb (has_id x) (flat_map (akid dns) r))%bool.
+Proof.
+  cbn [flat_map akid]. rewrite <- app_comm_cons. cbn [existsb]. rewrite has_id_abs, existsb_app, existsb_texts.
+  rewrite orb_assoc. reflexivity.
+Qed.
 Lemma split_kids_spec dns x kids :
   match split_kids x kids with
   | Some (bk, (c0, t0), ak, pos) =>
@@ -122,10 +129,8 @@ Proof.
     + destruct Ht as (Ht & Hm & Hb). repeat split; auto.
     + destruct (split_kids x r) as [[[[bk [c0 t0]] ak] pos]|].
       * destruct IH as (-> & Hbk & Hpos). split; [reflexivity|]. split; [|exact Hpos].
-        cbn [flat_map akid]. cbn [existsb]. rewrite has_id_abs, E. cbn [orb].
-        rewrite existsb_app, existsb_texts, Ht, Hbk. reflexivity.
-      * cbn [flat_map akid existsb]. rewrite has_id_abs, E. cbn [orb].
-        rewrite existsb_app, existsb_texts, Ht, IH. reflexivity.
+        rewrite existsb_akid_cons, E, Ht, Hbk. reflexivity.
+      * rewrite existsb_akid_cons, E, Ht, IH. reflexivity.
 Qed.
 
 (* ------------------------------------------------------------------ well-formed shapes *)
@@ -138,3 +143,171 @@ Lemma el_ok_eq i k own data kids :
 Proof. reflexivity. Qed.
 Lemma kids_ok_app l1 l2 : forallb kid_ok (l1 ++ l2) = (forallb kid_ok l1 && forallb kid_ok l2)%bool.
 Proof. apply forallb_app. Qed.
+
+(* ------------------------------------------------------------------ rewriting commutes with abstraction *)
+Lemma t_rw_eq {B} (g : itree -> option (itree * B)) t :
+  t_rw g t = match g t with
+             | Some r => Some r
+             | None => match t with
+                       | INode i p kids =>
+                           match rw_list (t_rw g) kids with
+                           | Some (kids', a) => Some (INode i p kids', a)
+                           | None => None
+                           end
+                       end
+             end.
+Proof. destruct t; reflexivity. Qed.
+Lemma c_rw_eq {A} (f : str -> cel -> option (cel * A)) inh e :
+  c_rw f inh e = match f inh e with
+                 | Some r => Some r
+                 | None => match e with
+                           | CEl i k own data kids =>
+                               match crw_kids (c_rw f (in_scope inh own)) kids with
+                               | Some (kids', a) => Some (CEl i k own data kids', a)
+                               | None => None
+                               end
+                           end
+                 end.
+Proof. destruct e; reflexivity. Qed.
+
+Section RwSim.
+  Context {A B : Type}.
+  Variable f : str -> cel -> option (cel * A).
+  Variable g : itree -> option (itree * B).
+  Variable G : A -> Prop.
+  Variable h : A -> B.
+  Hypothesis g_text : forall t, g (atext t) = None.
+  Hypothesis local : forall inh e, el_ok e = true ->
+    match f inh e with
+    | Some (e', a) => G a -> g (abs_el inh e) = Some (abs_el inh e', h a) /\ el_ok e' = true /\
+                             is_ktag (ckind_of e') = is_ktag (ckind_of e)
+    | None => g (abs_el inh e) = None
+    end.
+
+  Lemma t_rw_text t : t_rw g (atext t) = None.
+  Proof. rewrite t_rw_eq, g_text. reflexivity. Qed.
+  Lemma rw_list_texts ts r :
+    rw_list (t_rw g) (map atext ts ++ r)
+    = match rw_list (t_rw g) r with Some (r', a) => Some (map atext ts ++ r', a) | None => None end.
+  Proof.
+    induction ts as [|t ts IH]; cbn [map app].
+    - destruct (rw_list (t_rw g) r) as [[r' a]|]; reflexivity.
+    - cbn [rw_list]. rewrite t_rw_text. fold (rw_list (t_rw g)). rewrite IH.
+      destruct (rw_list (t_rw g) r) as [[r' a]|]; reflexivity.
+  Qed.
+
+  Definition sim_at (e : cel) : Prop := forall inh, el_ok e = true ->
+    match c_rw f inh e with
+    | Some (e', a) => G a -> t_rw g (abs_el inh e) = Some (abs_el inh e', h a) /\ el_ok e' = true /\
+                             is_ktag (ckind_of e') = is_ktag (ckind_of e)
+    | None => t_rw g (abs_el inh e) = None
+    end.
+
+  Lemma kids_sim dns kids : Forall (fun kt => sim_at (fst kt)) kids -> forallb kid_ok kids = true ->
+    match crw_kids (c_rw f dns) kids with
+    | Some (kids', a) => G a -> rw_list (t_rw g) (flat_map (akid dns) kids) = Some (flat_map (akid dns) kids', h a) /\
+                                forallb kid_ok kids' = true
+    | None => rw_list (t_rw g) (flat_map (akid dns) kids) = None
+    end.
+  Proof.
+    induction kids as [|[c t] r IH]; intros HF Hok; [reflexivity|].
+    inversion HF as [|? ? Hc Hr]; subst. cbn [fst] in Hc.
+    cbn [forallb kid_ok] in Hok. apply andb_true_iff in Hok as [Hct Hrok]. apply andb_true_iff in Hct as [Hcok Htok].
+    specialize (IH Hr Hrok). specialize (Hc dns Hcok).
+    cbn [crw_kids flat_map akid]. rewrite <- app_comm_cons. cbn [rw_list]. fold (rw_list (t_rw g)).
+    fold (crw_kids (c_rw f dns)).
+    destruct (c_rw f dns c) as [[c' a]|].
+    - intros Ga. destruct (Hc Ga) as (Hc1 & Hc2 & _). rewrite Hc1. split; [reflexivity|].
+      cbn [forallb kid_ok]. rewrite Hc2, Htok, Hrok. reflexivity.
+    - rewrite Hc. rewrite rw_list_texts.
+      destruct (crw_kids (c_rw f dns) r) as [[r' a]|].
+      + intros Ga. destruct (IH Ga) as (IH1 & IH2). rewrite IH1. split; [reflexivity|].
+        cbn [forallb kid_ok]. rewrite Hcok, Htok, IH2. reflexivity.
+      + rewrite IH. reflexivity.
+  Qed.
+
+  Lemma c_rw_sim e : sim_at e.
+  Proof.
+    induction e as [i k own data kids IH] using cel_ind'. intros inh Hok.
+    rewrite c_rw_eq, t_rw_eq. pose proof (local inh _ Hok) as L.
+    destruct (f inh (CEl i k own data kids)) as [[e' a]|].
+    - intros Ga. destruct (L Ga) as (L1 & L2 & L3). rewrite L1. auto.
+    - rewrite L. rewrite abs_el_eq. unfold akids. rewrite rw_list_texts.
+      rewrite el_ok_eq in Hok. apply andb3 in Hok as (Hd & Hks & Hkids).
+      pose proof (kids_sim (in_scope inh own) kids IH Hkids) as K.
+      destruct (crw_kids (c_rw f (in_scope inh own)) kids) as [[kids' a]|].
+      + intros Ga. destruct (K Ga) as (K1 & K2). rewrite K1. split; [reflexivity|]. split; [|reflexivity].
+        rewrite el_ok_eq, Hd, K2. unfold kind_shape in *. destruct (is_ktag k); [reflexivity|].
+        apply andb_true_iff in Hks as [Hks _]. apply andb_true_iff in Hks as [_ Hn]. destruct kids; [|discriminate].
+        cbn in K. discriminate.
+      + rewrite K. reflexivity.
+  Qed.
+
+  (* worlds *)
+  Lemma docs_sim ds : forallb doc_ok ds = true ->
+    match crw_docs f ds with
+    | Some (ds', a) => G a -> rw_docs g (map abs_doc ds) = Some (map abs_doc ds', h a) /\ forallb doc_ok ds' = true
+    | None => rw_docs g (map abs_doc ds) = None
+    end.
+  Proof.
+    induction ds as [|d r IH]; intros Hok; [reflexivity|].
+    cbn [forallb] in Hok. apply andb_true_iff in Hok as [Hd Hr]. specialize (IH Hr).
+    cbn [crw_docs map rw_docs]. fold (crw_docs f). fold (rw_docs g).
+    change (abs_doc d) with (map abs_top (d_pro d), abs_top (d_root d), map abs_top (d_epi d)). cbn beta iota.
+    pose proof Hd as Hd'. unfold doc_ok in Hd'. apply andb_true_iff in Hd' as [Hd1 Hepi].
+    apply andb_true_iff in Hd1 as [Hd1 Htag]. apply andb_true_iff in Hd1 as [Hpro Hroot].
+    pose proof (c_rw_sim (d_root d) [] Hroot) as S. unfold abs_top.
+    destruct (c_rw f [] (d_root d)) as [[r' a]|].
+    - intros Ga. destruct (S Ga) as (S1 & S2 & S3). rewrite S1. split; [reflexivity|].
+      cbn [forallb]. rewrite Hr. unfold doc_ok. cbn [d_pro d_root d_epi]. rewrite Hpro, S2, S3, Htag, Hepi. reflexivity.
+    - rewrite S. destruct (crw_docs f r) as [[r' a]|].
+      + intros Ga. destruct (IH Ga) as (IH1 & IH2). rewrite IH1. split; [reflexivity|].
+        cbn [forallb]. rewrite Hd, IH2. reflexivity.
+      + rewrite IH. reflexivity.
+  Qed.
+
+  Lemma loose_sim ls : forallb loose_ok ls = true ->
+    match crw_loose f ls with
+    | Some (ls', a) => G a -> rw_list (t_rw g) (map abs_loose ls) = Some (map abs_loose ls', h a) /\
+                              forallb loose_ok ls' = true
+    | None => rw_list (t_rw g) (map abs_loose ls) = None
+    end.
+  Proof.
+    induction ls as [|l r IH]; intros Hok; [reflexivity|].
+    cbn [forallb] in Hok. apply andb_true_iff in Hok as [Hl Hr]. specialize (IH Hr).
+    cbn [map rw_list]. fold (rw_list (t_rw g)). destruct l as [e|t].
+    - cbn [crw_loose abs_loose]. fold (crw_loose f). cbn [loose_ok] in Hl.
+      pose proof (c_rw_sim e [] Hl) as S. unfold abs_top.
+      destruct (c_rw f [] e) as [[e' a]|].
+      + intros Ga. destruct (S Ga) as (S1 & S2 & _). rewrite S1. split; [reflexivity|].
+        cbn [forallb loose_ok]. rewrite S2, Hr. reflexivity.
+      + rewrite S. destruct (crw_loose f r) as [[r' a]|].
+        * intros Ga. destruct (IH Ga) as (IH1 & IH2). rewrite IH1. split; [reflexivity|].
+          cbn [forallb loose_ok]. rewrite Hl, IH2. reflexivity.
+        * rewrite IH. reflexivity.
+    - cbn [crw_loose abs_loose]. fold (crw_loose f). rewrite t_rw_text.
+      destruct (crw_loose f r) as [[r' a]|].
+      + intros Ga. destruct (IH Ga) as (IH1 & IH2). rewrite IH1. split; [reflexivity|].
+        cbn [forallb]. rewrite Hl, IH2. reflexivity.
+      + rewrite IH. reflexivity.
+  Qed.
+
+  Lemma cw_rw_sim w : shape_ok w = true ->
+    match cw_rw f w with
+    | Some (w', a) => G a -> w_rw g (abs_world w) = Some (abs_world w', h a) /\ shape_ok w' = true
+    | None => w_rw g (abs_world w) = None
+    end.
+  Proof.
+    intros Hok. unfold shape_ok in Hok. apply andb_true_iff in Hok as [Hd Hl].
+    unfold cw_rw, w_rw. cbn [abs_world docs loose].
+    pose proof (docs_sim (w_docs w) Hd) as D.
+    destruct (crw_docs f (w_docs w)) as [[ds' a]|].
+    - intros Ga. destruct (D Ga) as (D1 & D2). rewrite D1. split; [reflexivity|].
+      unfold shape_ok. cbn [w_docs w_loose]. rewrite D2, Hl. reflexivity.
+    - rewrite D. pose proof (loose_sim (w_loose w) Hl) as L.
+      destruct (crw_loose f (w_loose w)) as [[ls' a]|].
+      + intros Ga. destruct (L Ga) as (L1 & L2). rewrite L1. split; [reflexivity|].
+        unfold shape_ok. cbn [w_docs w_loose]. rewrite Hd, L2. reflexivity.
+      + rewrite L. reflexivity.
+  Qed.
+End RwSim.
